@@ -558,6 +558,60 @@ class Engine:
         self.stats["paths"] += len(done)
         return done
 
+    def run_sub(self, st, body, args, depth):
+        """run `body` to completion on a fork of st; -> [(state, return value)] (panicking paths go to _ended)"""
+        s0 = st.fork()
+        nf = self.push_frame(s0, body, None, "STOP", depth, None)
+        self.bind_args(s0, nf, body, args, closure_call=False)
+        done = []
+        work = [s0]
+        while work:
+            s = work.pop()
+            self.step_path(s, work, done)
+            if len(done) + len(work) > self.max_paths:
+                raise Budget("path budget exceeded in %s" % body["path"])
+        out = []
+        for d in done:
+            if d.outcome == "subreturn":
+                d.outcome = None
+                rv = d.ret
+                d.ret = None
+                out.append((d, rv))
+            else:
+                self._ended.append(d)
+        return out
+
+    def bind_args(self, st, nf, body, cargs, closure_call):
+        cargs = list(cargs)
+        if closure_call:
+            env = cargs[0]
+            tup = cargs[1] if len(cargs) > 1 else ("agg", "tuple", None, None, ())
+            cargs = [env]
+            if tup[0] == "agg":
+                cargs += [fv for _, fv in tup[4]]
+            else:
+                for i in range(body["arg_count"] - 1):
+                    cargs.append(("field", tup, str(i)))
+        if body["def_kind"] == "Closure" and cargs:
+            env = cargs[0]
+            env_ty = body["locals"][1]["ty"]
+            if env_ty.startswith("&") and not (isinstance(env, tuple) and env[0] == "ref"):
+                tmp = ("L", nf.fid, -1)
+                st.store[tmp] = env
+                env = ("ref", tmp, (), True)
+            elif not env_ty.startswith("&") and isinstance(env, tuple) and env[0] == "ref":
+                env = self.read_loc(st, env[1], env[2])
+            cargs[0] = env
+        for i in range(1, body["arg_count"] + 1):
+            st.store[("L", nf.fid, i)] = cargs[i - 1] if i - 1 < len(cargs) else ("unknown", "arg")
+
+    def closure_body(self, v):
+        if isinstance(v, tuple) and v and v[0] == "agg" and v[1] == "closure":
+            return self.facts.bodies.get(v[2])
+        if isinstance(v, tuple) and v and v[0] == "fn":
+            return self.facts.bodies.get(v[1])
+        return None
+
     def push_frame(self, st, body, ret_dest, ret_target, depth, callsite):
         fr = Frame(st.nfid, body, 0, 0, ret_dest, ret_target, depth, frozenset(), callsite)
         st.nfid += 1
@@ -619,6 +673,9 @@ class Engine:
                 st.frames.pop()
                 if not st.frames:
                     self.finish(st, "return", done, rv)
+                    return
+                if fr.ret_target == "STOP":
+                    self.finish(st, "subreturn", done, rv)
                     return
                 caller = st.frames[-1]
                 if fr.ret_dest is not None:
@@ -816,26 +873,8 @@ class Engine:
             if self.inline_loops or not self.loops(body):
                 self.stats["inlined"].add(body["path"])
                 nf = self.push_frame(st, body, dest, target, fr.depth + 1, site)
-                cargs = list(args)
-                # closures called through Fn*/call*: (env, (a, b, ..)) -> env, a, b, ..
-                if body["def_kind"] == "Closure" and fn.get("trait", "").startswith("core::ops::function::Fn"):
-                    env = cargs[0]
-                    tup = cargs[1] if len(cargs) > 1 else ("agg", "tuple", None, None, ())
-                    env_ty = body["locals"][1]["ty"]
-                    if env_ty.startswith("&") and not (isinstance(env, tuple) and env[0] == "ref"):
-                        tmp = ("L", nf.fid, -1)
-                        st.store[tmp] = env
-                        env = ("ref", tmp, (), True)
-                    elif not env_ty.startswith("&") and isinstance(env, tuple) and env[0] == "ref":
-                        env = self.read_loc(st, env[1], env[2])
-                    cargs = [env]
-                    if tup[0] == "agg":
-                        cargs += [fv for _, fv in tup[4]]
-                    else:
-                        for i in range(body["arg_count"] - 1):
-                            cargs.append(("field", tup, str(i)))
-                for i in range(1, body["arg_count"] + 1):
-                    st.store[("L", nf.fid, i)] = cargs[i - 1] if i - 1 < len(cargs) else ("unknown", "arg")
+                self.bind_args(st, nf, body, args, closure_call=(
+                    body["def_kind"] == "Closure" and fn.get("trait", "").startswith("core::ops::function::Fn")))
                 st.events.append({"kind": "enter", "callee": key, "fn": fn, "args": args, "site": site,
                                   "seq": st.seq, "depth": fr.depth + 1})
                 st.seq += 1
@@ -1051,6 +1090,21 @@ def m_opt_unwrap_or(eng, st, fr, fn, args, t):
     return out
 
 
+def m_opt_map(eng, st, fr, fn, args, t):
+    """Option::map(o, f) / is_some_and(o, f) with a closure literal: the closure is inlined on the Some arm"""
+    body = eng.closure_body(args[1])
+    if body is None or eng.loops(body):
+        return None
+    out = []
+    for (s2, var, payload) in _fork_option(eng, st, args[0]):
+        if var == "None":
+            out.append((s2, mk_none() if fn["name"] == "map" else mk_bool(False)))
+            continue
+        for (s3, rv) in eng.run_sub(s2, body, [args[1], payload], fr.depth + 1):
+            out.append((s3, mk_some(rv) if fn["name"] == "map" else rv))
+    return out
+
+
 def m_clone(eng, st, fr, fn, args, t):
     return _ret(st, _pointee(eng, st, args[0]))
 
@@ -1176,6 +1230,8 @@ DEFAULT_MODELS = {
     "core::option::Option::<T>::unwrap": m_opt_unwrap,
     "core::option::Option::<T>::expect": m_opt_unwrap,
     "core::option::Option::<T>::unwrap_or": m_opt_unwrap_or,
+    "core::option::Option::<T>::map": m_opt_map,
+    "core::option::Option::<T>::is_some_and": m_opt_map,
     "core::clone::Clone::clone": m_clone,
     "core::cmp::PartialEq::eq": m_eq,
     "core::cmp::PartialEq::ne": m_eq,
